@@ -77,7 +77,7 @@ def gen(rng, i, tier):
     props = rand_props(rng, d)
     pack = {"inside": rng.sample(["a.png", "B.JPG", "c.jpeg", "d.gif", "e.bmp", "f.txt", "z.PNG", "a_png", "thumbsgif", "oldbmp"], rng.choice([0, 0, 1, 2, 4])),
             "beside": rng.sample(["pack.png", "pack.jpg", "pack.bmp", "PACK.PNG", "packx.png", "other.png", "pack-png", "packjpg"], rng.choice([0, 1, 2]))}
-    return {"fs": rng.choice(["native", "mem"]), "dir": c19.enc_tree(d), "props": props, "pack": pack}
+    return {"fs": rng.choice(["native", "mem"]), "dir": c19.enc_tree(d), "props": props, "pack": pack, "pack_spelling": rng.choice([None, None, "sep", "dot"])}
 
 
 def build_tree(c):
@@ -116,7 +116,9 @@ def impl(c):
                 p = t.base + v.replace("/", t.sep)
                 exists[k] = bool(t.fs.exists(p))
         res["exists"] = exists
-        res["pack_banner"] = t.rel(SimfilePack(t.root, filesystem=t.fs).banner())
+        # the pack directory as a caller may spell it: plain, with a trailing separator, with a trailing "/."
+        spelled = t.root + {"sep": t.sep, "dot": t.sep + "."}.get(c.get("pack_spelling"), "")
+        res["pack_banner"] = t.rel(SimfilePack(spelled, filesystem=t.fs).banner())
         return res
     finally:
         t.close()
